@@ -98,13 +98,17 @@ HARNESSES = [
          flags=LEAK, timeout=300, unwind=2,
          unwindset=["copy_node:4", "destroy_nodes_dfs:4"] + ["harness.%d:4" % i for i in range(5)],
          cases=[dict(id="dot%d_nn%d" % (d, n), defines={"DOT": d, "NN": n}, tier=t)
-                for d, n, t in ((0, 0, "quick"), (1, 0, "quick"), (1, 1, "quick"), (1, 2, "quick"))]),
-    dict(name="xattr_writer", file="xattr_writer.c", label="bounded(blocks<=2,pairs=3)",
+                for d, n, t in ((0, 0, "quick"), (1, 0, "quick"), (1, 1, "thorough"), (1, 2, "thorough"))]),
+    dict(name="xattr_writer", file="xattr_writer.c", label="bounded(blocks<=1,pairs=3)",
          fp={"destroy": "xattr_writer_destroy", "copy": "xattr_writer_copy",
              "key_compare": "block_compare"},
          flags=LEAK, timeout=300, unwind=4,
          cases=[dict(id="nb%d_first%d" % (n, f), defines={"NB": n, "FIRST": f}, tier=t,
                      unwindset=["xattr_writer_copy.0:%d" % (n + 2), "rbtree_lookup.0:%d" % (n + 1),
                                 "copy_node:%d" % (n + 1), "destroy_nodes_dfs:%d" % (n + 2)])
-                for n, f, t in ((0, 0, "quick"), (1, 0, "quick"), (2, 0, "quick"), (2, 1, "thorough"))]),
+                for n, f, t in ((0, 0, "quick"), (1, 0, "quick"))]),
+    dict(name="ht_clone", file="ht_clone.c", label="proved",
+         fp={"key_equals_function": "eq_stub", "key_hash_function": "hash_stub",
+             "delete_function": "del_stub"},
+         flags=LEAK, timeout=200, unwind=7),
 ]
